@@ -318,10 +318,16 @@ H_MATS = {
     'm2': [[1.0, 2.0], [3.0, 4.0]],                                   # pivoting exchanges the rows
     'm3': [[4.0, 1.0, 0.0], [1.0, 5.0, 2.0], [0.0, 1.0, 3.0]],         # no exchange
     'm3s': [[1.0, 2.0, 0.0], [3.0, 1.0, 1.0], [2.0, 5.0, 4.0]],        # two exchanges, plain LU exists as well
+    # beyond the exhaustively enumerated sizes: exchanges needed, all leading minors non-zero (plain LU exists as well)
+    'm5s': [[1.0, 2.0, 0.0, 0.0, 1.0], [3.0, 1.0, 1.0, 0.0, 0.0], [0.0, 2.0, 1.0, 3.0, 0.0], [2.0, 0.0, 4.0, 1.0, 1.0],
+            [0.0, 1.0, 0.0, 2.0, 5.0]],
+    'm6s': [[1.0, 2.0, 0.0, 0.0, 1.0, 0.0], [3.0, 1.0, 1.0, 0.0, 0.0, 2.0], [0.0, 2.0, 1.0, 3.0, 0.0, 0.0],
+            [2.0, 0.0, 4.0, 1.0, 1.0, 0.0], [0.0, 1.0, 0.0, 2.0, 5.0, 1.0], [1.0, 0.0, 0.0, 6.0, 0.0, 2.0]],
 }
 H_RHS = {k: [[float(i + 1), float(3 - 2 * i)] for i in range(len(m))] for k, m in H_MATS.items()}
 H_ROUTINES = ['lu_solve', 'lu_factor', 'matrix_inverse', 'matrix_determinant', 'matrix_pivot']
-H_OPS = [[r, k] for k in ('m2', 'm3', 'm3s') for r in H_ROUTINES] + [['matrix_identity', n] for n in (1, 2, 3, 4)]
+H_OPS = ([[r, k] for k in ('m2', 'm3', 'm3s', 'm5s', 'm6s') for r in H_ROUTINES] +
+         [['matrix_identity', n] for n in (1, 2, 3, 4, 5, 6)])
 USES_PIVOT = ('lu_factor', 'matrix_inverse', 'matrix_determinant', 'matrix_pivot')
 
 
